@@ -109,6 +109,9 @@ func cmdCheck(args []string) int {
 			budget = 100 * time.Minute
 		}
 	}
+	if m, err := strconv.Atoi(os.Getenv("VERIF_BUDGET_MIN")); err == nil && m > 0 {
+		budget = time.Duration(m) * time.Minute
+	}
 	s := newSched(P, time.Now().Add(budget))
 	for _, j := range jobs {
 		j.Frame = spec.Frame
